@@ -8,6 +8,9 @@ type RecAttrs struct {
 	Activations []string // nil = ONNX defaults
 	LBR         bool     // GRU linear_before_reset
 	InputForget bool     // LSTM input_forget
+	// SeqLens, when non-nil, holds the number of valid steps per batch entry (ONNX sequence_lens): beyond it the
+	// entry's state is carried unchanged and its rows of Y are zero
+	SeqLens []int
 	// variants for the discrimination self-check
 	Variant string // "", "gate-order", "bias-slots", "peephole-slots"
 }
@@ -219,8 +222,21 @@ func Recurrent(op string, X, W, R, B, h0, c0, P *T, a RecAttrs) ([]*T, error) {
 				}
 			}
 		}
+		past := func(b int) bool { return a.SeqLens != nil && t >= a.SeqLens[b] }
+		for b := 0; b < Bn; b++ {
+			if past(b) {
+				copy(nh[b*H:(b+1)*H], h[b*H:(b+1)*H])
+				if len(c) == len(nc) {
+					copy(nc[b*H:(b+1)*H], c[b*H:(b+1)*H])
+				}
+			}
+		}
 		h, c = nh, nc
 		for i := range h {
+			if past(i / H) {
+				Y.V[t*Bn*H+i] = EncF(X.DT, 0)
+				continue
+			}
 			Y.V[t*Bn*H+i] = EncF(X.DT, h[i])
 		}
 	}
